@@ -3,7 +3,7 @@
    Separate extraction: one OCaml module per Coq file, written to Extract/ml/. *)
 From Coq Require Import NArith ZArith List.
 From Coq Require Extraction ExtrOcamlBasic.
-From Verif Require Import Kernel.Varint Model.PlainFrame Model.NoiseFrame Model.WireSpec Model.Conn Model.Keepalive.
+From Verif Require Import Kernel.Varint Model.PlainFrame Model.NoiseFrame Model.WireSpec Model.Conn Model.Keepalive Model.Client.
 Extraction Language OCaml.
 Cd "Extract/ml".
 Separate Extraction N.add N.mul N.of_nat N.to_nat N.eqb Z.add Z.mul Z.opp
@@ -11,5 +11,6 @@ Separate Extraction N.add N.mul N.of_nat N.to_nat N.eqb Z.add Z.mul Z.opp
   PlainFrame.write_packets PlainFrame.run PlainFrame.data_received
   NoiseFrame.run NoiseFrame.sess_init WireSpec.spec_decode_plain WireSpec.spec_decode_noise
   Conn.step Conn.init Conn.armed_deadlines
-  Keepalive.ka_sim Keepalive.ka_init.
+  Keepalive.ka_sim Keepalive.ka_init
+  Client.cstep Client.client_init.
 Cd "../..".
